@@ -300,6 +300,75 @@ Global Hint Unfold int_is opt_int_is pos_int int_ge atom_false atom_true atom_de
   threshold_1d threshold_ends min_precision_ok avg_classes c_same_2d c_tasks c_tasks_w c_tasks_row k_limit_ok c_rank
   c_regression row_form w_ok c_text perplexity_pre : shapes.
 
+(* ---------------- the contracts as propositions ---------------- *)
+Definition contract_accuracy_param_check (e : env) : Prop := contractb_accuracy_param_check e = true.
+Definition contract_accuracy_update_input_check (e : env) : Prop := contractb_accuracy_update_input_check e = true.
+Definition contract_auc_update_input_check (e : env) : Prop := contractb_auc_update_input_check e = true.
+Definition contract_binary_accuracy_update_input_check (e : env) : Prop := contractb_binary_accuracy_update_input_check e = true.
+Definition contract_binary_auprc_update_input_check (e : env) : Prop := contractb_binary_auprc_update_input_check e = true.
+Definition contract_binary_auroc_update_input_check (e : env) : Prop := contractb_binary_auroc_update_input_check e = true.
+Definition contract_binary_binned_auprc_param_check (e : env) : Prop := contractb_binary_binned_auprc_param_check e = true.
+Definition contract_binary_binned_auprc_update_input_check (e : env) : Prop := contractb_binary_binned_auprc_update_input_check e = true.
+Definition contract_binary_binned_auroc_param_check (e : env) : Prop := contractb_binary_binned_auroc_param_check e = true.
+Definition contract_binary_binned_auroc_update_input_check (e : env) : Prop := contractb_binary_binned_auroc_update_input_check e = true.
+Definition contract_binary_confusion_matrix_update_input_check (e : env) : Prop := contractb_binary_confusion_matrix_update_input_check e = true.
+Definition contract_binary_f1_score_update_input_check (e : env) : Prop := contractb_binary_f1_score_update_input_check e = true.
+Definition contract_binary_precision_recall_curve_update_input_check (e : env) : Prop := contractb_binary_precision_recall_curve_update_input_check e = true.
+Definition contract_binary_precision_update_input_check (e : env) : Prop := contractb_binary_precision_update_input_check e = true.
+Definition contract_binary_recall_at_fixed_precision_update_input_check (e : env) : Prop := contractb_binary_recall_at_fixed_precision_update_input_check e = true.
+Definition contract_binary_recall_update_input_check (e : env) : Prop := contractb_binary_recall_update_input_check e = true.
+Definition contract_binned_precision_recall_curve_param_check (e : env) : Prop := contractb_binned_precision_recall_curve_param_check e = true.
+Definition contract_click_through_rate_input_check (e : env) : Prop := contractb_click_through_rate_input_check e = true.
+Definition contract_confusion_matrix_param_check (e : env) : Prop := contractb_confusion_matrix_param_check e = true.
+Definition contract_confusion_matrix_update_input_check (e : env) : Prop := contractb_confusion_matrix_update_input_check e = true.
+Definition contract_f1_score_param_check (e : env) : Prop := contractb_f1_score_param_check e = true.
+Definition contract_f1_score_update_input_check (e : env) : Prop := contractb_f1_score_update_input_check e = true.
+Definition contract_frequency_input_check (e : env) : Prop := contractb_frequency_input_check e = true.
+Definition contract_hit_rate_input_check (e : env) : Prop := contractb_hit_rate_input_check e = true.
+Definition contract_mean_squared_error_param_check (e : env) : Prop := contractb_mean_squared_error_param_check e = true.
+Definition contract_mean_squared_error_update_input_check (e : env) : Prop := contractb_mean_squared_error_update_input_check e = true.
+Definition contract_multiclass_auprc_param_check (e : env) : Prop := contractb_multiclass_auprc_param_check e = true.
+Definition contract_multiclass_auprc_update_input_check (e : env) : Prop := contractb_multiclass_auprc_update_input_check e = true.
+Definition contract_multiclass_auroc_param_check (e : env) : Prop := contractb_multiclass_auroc_param_check e = true.
+Definition contract_multiclass_auroc_update_input_check (e : env) : Prop := contractb_multiclass_auroc_update_input_check e = true.
+Definition contract_multiclass_binned_auprc_param_check (e : env) : Prop := contractb_multiclass_binned_auprc_param_check e = true.
+Definition contract_multiclass_binned_auprc_update_input_check (e : env) : Prop := contractb_multiclass_binned_auprc_update_input_check e = true.
+Definition contract_multiclass_binned_auroc_param_check (e : env) : Prop := contractb_multiclass_binned_auroc_param_check e = true.
+Definition contract_multiclass_binned_auroc_update_input_check (e : env) : Prop := contractb_multiclass_binned_auroc_update_input_check e = true.
+Definition contract_multiclass_precision_recall_curve_update_input_check (e : env) : Prop := contractb_multiclass_precision_recall_curve_update_input_check e = true.
+Definition contract_multilabel_accuracy_param_check (e : env) : Prop := contractb_multilabel_accuracy_param_check e = true.
+Definition contract_multilabel_accuracy_update_input_check (e : env) : Prop := contractb_multilabel_accuracy_update_input_check e = true.
+Definition contract_multilabel_auprc_param_check (e : env) : Prop := contractb_multilabel_auprc_param_check e = true.
+Definition contract_multilabel_auprc_update_input_check (e : env) : Prop := contractb_multilabel_auprc_update_input_check e = true.
+Definition contract_multilabel_binned_auprc_param_check (e : env) : Prop := contractb_multilabel_binned_auprc_param_check e = true.
+Definition contract_multilabel_binned_auprc_update_input_check (e : env) : Prop := contractb_multilabel_binned_auprc_update_input_check e = true.
+Definition contract_multilabel_precision_recall_curve_update_input_check (e : env) : Prop := contractb_multilabel_precision_recall_curve_update_input_check e = true.
+Definition contract_multilabel_recall_at_fixed_precision_update_input_check (e : env) : Prop := contractb_multilabel_recall_at_fixed_precision_update_input_check e = true.
+Definition contract_ne_input_check (e : env) : Prop := contractb_ne_input_check e = true.
+Definition contract_num_collisions_input_check (e : env) : Prop := contractb_num_collisions_input_check e = true.
+Definition contract_optimization_param_check (e : env) : Prop := contractb_optimization_param_check e = true.
+Definition contract_perplexity_input_check (e : env) : Prop := contractb_perplexity_input_check e = true.
+Definition contract_precision_param_check (e : env) : Prop := contractb_precision_param_check e = true.
+Definition contract_precision_update_input_check (e : env) : Prop := contractb_precision_update_input_check e = true.
+Definition contract_psnr_input_check (e : env) : Prop := contractb_psnr_input_check e = true.
+Definition contract_psnr_param_check (e : env) : Prop := contractb_psnr_param_check e = true.
+Definition contract_r2_score_param_check (e : env) : Prop := contractb_r2_score_param_check e = true.
+Definition contract_r2_score_update_input_check (e : env) : Prop := contractb_r2_score_update_input_check e = true.
+Definition contract_recall_param_check (e : env) : Prop := contractb_recall_param_check e = true.
+Definition contract_recall_update_input_check (e : env) : Prop := contractb_recall_update_input_check e = true.
+Definition contract_reciprocal_rank_input_check (e : env) : Prop := contractb_reciprocal_rank_input_check e = true.
+Definition contract_retrieval_precision_param_check (e : env) : Prop := contractb_retrieval_precision_param_check e = true.
+Definition contract_retrieval_precision_update_input_check (e : env) : Prop := contractb_retrieval_precision_update_input_check e = true.
+Definition contract_retrieval_recall_param_check (e : env) : Prop := contractb_retrieval_recall_param_check e = true.
+Definition contract_retrieval_recall_update_input_check (e : env) : Prop := contractb_retrieval_recall_update_input_check e = true.
+Definition contract_topk_multilabel_accuracy_param_check (e : env) : Prop := contractb_topk_multilabel_accuracy_param_check e = true.
+Definition contract_topk_multilabel_accuracy_update_input_check (e : env) : Prop := contractb_topk_multilabel_accuracy_update_input_check e = true.
+Definition contract_wasserstein_update_input_check (e : env) : Prop := contractb_wasserstein_update_input_check e = true.
+Definition contract_weighted_calibration_input_check (e : env) : Prop := contractb_weighted_calibration_input_check e = true.
+Definition contract_window_mean_squared_error_update_input_check (e : env) : Prop := contractb_window_mean_squared_error_update_input_check e = true.
+Definition contract_word_error_rate_input_check (e : env) : Prop := contractb_word_error_rate_input_check e = true.
+Definition contract_word_information_preserved_input_check (e : env) : Prop := contractb_word_information_preserved_input_check e = true.
+
 (* ---------------- table: python check-function name -> contract ---------------- *)
 Definition all_contracts : list (string * (env -> bool)) := [
   ("_accuracy_param_check", contractb_accuracy_param_check);
